@@ -313,11 +313,77 @@ def ptr_of(f, e):
     return p[1:] if p and p.startswith("*") else None
 
 
+def _applications(f):
+    return [s for s in f.stmts.values() if s["k"] == "CXXOperatorCallExpr" and s.get("op") == "()" and len(s["args"]) >= 2
+            and (path(f, f.s(s["args"][0])) or "").startswith("p:")]
+
+
+def _enclosing_try(f, a):
+    for anc in f.ancestors(a):
+        if anc["k"] == "CXXTryStmt" and any(d["id"] == a["id"] for d in f.descendants(f.s(anc["try"]))):
+            return anc
+    return None
+
+
+def guard_recovery(f, a):
+    """recovery performed by scope guards (objects of helper classes whose destructor restores a copy when the scope is
+    left by an exception) alive at application a.  Returns None when no guard is alive there, otherwise
+    (assignments [(target pointer, source pointer, site, only-when-unwinding)], guard names, undecidable reason or None)"""
+    from ..common import scope_guards_alive
+    sg = scope_guards_alive(f, a)
+    if not sg:
+        return None
+    asg = []
+    why = None
+    for var in sg:
+        ds = [s for s in f.stmts.values() if s["k"] == "DeclStmt" and any("l:" + d["name"] == var for d in s["decls"])][0]
+        found = False
+        for d in f.descendants(ds):
+            if d.get("inl_init"):
+                continue
+            l = r = None
+            if d["k"] == "CXXOperatorCallExpr" and d.get("op") == "=" and len(d["args"]) == 2:
+                l, r = f.s(d["args"][0]), f.s(d["args"][1])
+            elif d["k"] == "BinaryOperator" and d["op"] == "=" and not d.get("inl_return"):
+                l, r = f.children(d)
+            if l is None:
+                continue
+            lp, rp = ptr_of(f, l), (None if _is_moved(f, r) else ptr_of(f, r))
+            if not lp and not rp:
+                continue
+            unwinding = False
+            for anc in f.ancestors(d):
+                if anc["id"] == ds["id"]:
+                    break
+                if anc["k"] == "IfStmt" and anc.get("cond") and any(
+                        x["k"] == "CallExpr" and callee_fq(x) in ("std::uncaught_exceptions", "std::uncaught_exception")
+                        for x in f.descendants(f.s(anc["cond"]))):
+                    unwinding = True
+            asg.append((lp, rp, d, unwinding))
+            found = True
+        if not found:
+            why = "the destructor of %s performs no copy assignment this rule recognises" % var
+    return asg, sg, why
+
+
 def handler_rules(ctx, rid="C03.handlers"):
     """the catch handlers of modify write only through the pointer that is being applied in their try block
     (the copy readers are not directed to at that point)"""
     ctx.rule(rid, "exception handlers of modify never write the copy readers are currently directed to", floor=4)
     for f in lr_functions(ctx, "modify"):
+        for a in _applications(f):
+            gr = guard_recovery(f, a) if _enclosing_try(f, a) is None else None
+            if gr is None:
+                continue
+            applied = ptr_of(f, f.s(a["args"][1]))
+            if gr[2] or applied is None:
+                ctx.unknown("%s: %s: scope guard(s) %s alive at the application at %s: %s" % (rid, f.label, ", ".join(gr[1]), f.loc(a), gr[2] or "applied pointer not found"))
+                continue
+            for lp, rp, d, unw in gr[0]:
+                ok = lp == applied
+                ctx.ob(rid, ok, f.loc(a), "a scope guard alive at this application writes only through %s (the copy being modified here)" % applied,
+                       "" if ok else "the guard's destructor at %s writes through %s when this application throws: the copy readers are "
+                       "using (or will be directed to) is overwritten while they may be reading it" % (f.loc(d), lp), fn=f.label, inst=f.qname)
         for ts in [s for s in f.stmts.values() if s["k"] == "CXXTryStmt"]:
             body = f.s(ts["try"])
             applied = None
@@ -372,6 +438,20 @@ def lr_handlers(ctx, rid="C20.lr"):
                     tr = anc
                     break
             ok = tr is not None
+            if not ok:
+                gr = guard_recovery(f, a)
+                if gr is not None:
+                    if gr[2]:
+                        ctx.unknown("%s: %s: the application at %s is not inside a try block, but the scope guard(s) %s are alive "
+                                    "there: %s" % (rid, f.label, f.loc(a), ", ".join(gr[1]), gr[2]))
+                        continue
+                    pairs = [(lp, rp) for lp, rp, _, _ in gr[0]]
+                    good = (pv, other) in pairs and all(l == pv for l, _ in pairs) and all(u for _, _, _, u in gr[0])
+                    ctx.ob(rid, good, f.loc(a), "scope guards alive at the application restore the written copy from the other copy, "
+                           "and only while an exception unwinds (which keeps propagating)",
+                           "" if good else "guard assignments %s (conditional on std::uncaught_exceptions: %s); expected only *%s = *%s"
+                           % (pairs, [u for _, _, _, u in gr[0]], pv, other), fn=f.label, inst=f.qname)
+                    continue
             ctx.ob(rid, ok, f.loc(a), "the application is inside a try block", "" if ok else
                    "a throwing functor leaves the two copies different", fn=f.label, inst=f.qname)
             if not ok:
